@@ -51,6 +51,7 @@ class Out:
     def concrete_fail(self, witness, label=''):
         """a path whose (now fully concrete) outcome contradicts the oracle"""
         self.obligations += 1
+        self.validated += 1        # the path ran the real code on concrete values: it is itself a trace of the implementation
         w = dict(witness)
         w['label'] = label
         if len(self.candidates) < 40:
@@ -59,6 +60,7 @@ class Out:
     def concrete_ok(self):
         self.obligations += 1
         self.discharged += 1
+        self.validated += 1
 
     def sample(self, s):
         if len(self.samples) < 3:
